@@ -8,6 +8,8 @@ mkdir -p "$VERIF_OUT"
 (cd harness && cargo build --offline 2>&1 | tail -1)
 for id in "$@"; do
   echo "=== $id $TIER"
-  /root/.vp/bgtarget/debug/verif check "$id" --tier "$TIER" 2>&1 | grep -v "^VIOLATION" | cut -c1-400 | tail -60
-  echo "exit=$?"
+  /root/.vp/bgtarget/debug/verif check "$id" --tier "$TIER" > "$VERIF_OUT/$id.log" 2>&1
+  rc=$?
+  grep -v "^VIOLATION" "$VERIF_OUT/$id.log" | cut -c1-400 | tail -60
+  echo "exit=$rc violation_lines=$(grep -c '^VIOLATION' "$VERIF_OUT/$id.log")"
 done
